@@ -67,7 +67,7 @@ def g_retrieval(prop):
     for kind in ('function', 'instance'):
         for node in ('FunctionDef', 'Assign'):
             T.append(dict(mode='forged', kind=kind, node=node))
-    T += [dict(mode='af_ast'), dict(mode='as_forged')]
+    T += [dict(mode='af_ast'), dict(mode='as_forged'), dict(mode='fwd')]
     return dict(name='retrieval', bound='none (tier P): the inspected object is symbolic - presence of every attribute the units touch in the '
                 'instance dict / on the type, every external outcome (inspect.signature, getsource, ast.parse, forger, hint, descriptors) '
                 'and every exception class are solver variables; kinds of object: function, callable instance; class of the parsed node enumerated',
@@ -136,10 +136,16 @@ def plan(prop, tier, seed=0):
         if prop in ('C08', 'C10', 'C11'):
             G += [g_partial(prop, B1, 1), g_partial(prop, B1 if q else (1, 2, 1, 3), 0, 'plain')]
     if prop == 'C20':
-        G += [g_support(prop, (1, 2, 1, 3) if q else (2, 2, 2, 4), 2 if q else 3)]
+        G += [g_support(prop, (1, 2, 1, 3) if q else (2, 2, 2, 4), 2 if q else 3),
+              dict(name='support string helpers (tier R)', exhaustive=True,
+                   bound='RUNTIME contract (bounded stand-in, not proved): the real s / f / func_from_sig run natively on every signature with names a..e, '
+                   '<=1 positional-only, <=2 positional-or-keyword (defaults a suffix), *args or not, <=2 keyword-only (any defaults), **kwargs or not, '
+                   '3 annotation patterns; eager and postponed; all 7 modifiers-spelling option combinations for signatures without positional-only '
+                   'parameters; f checked against really calling a twin function on <= positionals+1 positional x <=2 keywords',
+                   tasks=[dict(module='contracts.support', want=[prop], args=dict(mode='roundtrip', shape=(i, 16)), cross=False) for i in range(16)])]
     if prop == 'C14':
         G += [g_dropin(prop, B1), g_partial(prop, B1 if q else (1, 2, 1, 3), 0, 'plain')]
-    if prop in ('C04', 'C07', 'C15', 'C16', 'C13'):
+    if prop in ('C04', 'C05', 'C06', 'C07', 'C15', 'C16', 'C13'):
         G += [g_retrieval(prop)]
     if prop in ('C01', 'C02', 'C04', 'C08', 'C09', 'C10', 'C11', 'C15', 'C16', 'C19'):
         G += [g_concile(prop)]       # the contract used as call summary, discharged on the real body
